@@ -16,19 +16,38 @@ FLOOR = 3e-12     # errors below this are rounding dominated: not judged
 MARGIN = 0.75
 
 
-def make_system(seed, tp=False, G=1.0):
+def make_system(seed, tp=False, G=1.0, tpcfg=None):
+    """tp=True (legacy): 3 active bodies + one massless outer test particle.
+    tpcfg=(mode, type): mode 'A' = star + 2 planets active + 1 outer test particle;
+                        mode 'B' = star + planet 1 active (N_active = 2), planet 2 and an outer body are test particles.
+    type 0: test particles are massless; type 1: they keep a non-zero mass and act back on the active bodies."""
     rng = random.Random(seed)
     sim = rebound.Simulation()
     sim.G = G
     sim.add(m=1.0)
     a1 = rng.uniform(0.9, 1.1)
-    sim.add(m=10 ** rng.uniform(-3.3, -2.7), a=a1, e=rng.uniform(0.0, 0.12), inc=rng.uniform(0, 0.1),
-            omega=rng.uniform(0, 6.28), Omega=rng.uniform(0, 6.28), f=rng.uniform(0, 6.28))
-    sim.add(m=10 ** rng.uniform(-3.6, -3.0), a=a1 * rng.uniform(1.7, 2.1), e=rng.uniform(0.0, 0.1), inc=rng.uniform(0, 0.1),
-            omega=rng.uniform(0, 6.28), Omega=rng.uniform(0, 6.28), f=rng.uniform(0, 6.28))
-    if tp:
-        sim.add(m=0.0, a=a1 * 3.1, e=0.05, inc=0.03, f=rng.uniform(0, 6.28))
-        sim.N_active = 3
+    m1 = 10 ** rng.uniform(-3.3, -2.7); m2 = 10 ** rng.uniform(-3.6, -3.0)
+    el1 = dict(a=a1, e=rng.uniform(0.0, 0.12), inc=rng.uniform(0, 0.1), omega=rng.uniform(0, 6.28), Omega=rng.uniform(0, 6.28), f=rng.uniform(0, 6.28))
+    el2 = dict(a=a1 * rng.uniform(1.7, 2.1), e=rng.uniform(0.0, 0.1), inc=rng.uniform(0, 0.1), omega=rng.uniform(0, 6.28), Omega=rng.uniform(0, 6.28), f=rng.uniform(0, 6.28))
+    f3 = rng.uniform(0, 6.28)
+    if tpcfg is None:
+        sim.add(m=m1, **el1)
+        sim.add(m=m2, **el2)
+        if tp:
+            sim.add(m=0.0, a=a1 * 3.1, e=0.05, inc=0.03, f=f3)
+            sim.N_active = 3
+    else:
+        mode, typ = tpcfg
+        mt = 3e-4 if typ == 1 else 0.0
+        sim.add(m=m1, **el1)
+        if mode == "A":
+            sim.add(m=m2, **el2)
+            sim.N_active = 3
+        else:
+            sim.N_active = 2
+            sim.add(m=(m2 if typ == 1 else 0.0), **el2)
+        sim.add(m=mt, a=a1 * 3.1, e=0.05, inc=0.03, f=f3)
+        sim.testparticle_type = typ
     sim.move_to_com()
     return sim
 
@@ -41,8 +60,8 @@ def err(a, b):
     return max(math.sqrt(sum((u - v) ** 2 for u, v in zip(p, q))) for p, q in zip(a, b))
 
 
-def reference(seed, T, tp, G):
-    sim = make_system(seed, tp, G)
+def reference(seed, T, tp, G, tpcfg=None):
+    sim = make_system(seed, tp, G, tpcfg)
     sim.integrator = "ias15"
     sim.ri_ias15.epsilon = 1e-9
     sim.ri_ias15.min_dt = 0
@@ -78,7 +97,7 @@ def configure(sim, pt):
 
 
 def run_fixed(seed, pt, T, nsteps):
-    sim = make_system(seed, pt.get("tp", False), pt.get("G", 1.0))
+    sim = make_system(seed, pt.get("tp", False), pt.get("G", 1.0), tuple(pt["tpcfg"]) if pt.get("tpcfg") else None)
     configure(sim, pt)
     sim.dt = T / nsteps
     sim.steps(nsteps)
@@ -130,6 +149,29 @@ def lattice(tier):
     # JANUS
     for o, n in ((2, 64), (4, 16), (6, 8), (8, 6), (10, 3)):
         add("janus/%d" % o, o, n, integrator="janus", order=o)
+    # test-particle code paths: N_active < N, testparticle_type 0 (massless) and 1 (massive test particles acting back)
+    for mode in ("A", "B"):
+        for typ in (0, 1):
+            tag = "tp%s%d" % (mode, typ); cfg = (mode, typ)
+            add("leapfrog/" + tag, 2, 64, integrator="leapfrog", tpcfg=cfg)
+            for coord in (0, 1, 2, 3):
+                add("whfast/default/c0/coord%d/%s" % (coord, tag), 2, 16, integrator="whfast", coordinates=coord, tpcfg=cfg)
+            add("whfast/default/c11/jacobi/" + tag, 2, 8, integrator="whfast", corrector=11, tpcfg=cfg)
+            add("saba/0x6/" + tag, 4, 4, integrator="saba", type=6, tpcfg=cfg)
+            add("saba/0x101/" + tag, 4, 8, integrator="saba", type=0x101, tpcfg=cfg)
+            add("saba/0x201/" + tag, 4, 8, integrator="saba", type=0x201, tpcfg=cfg)
+            add("eos/phi0=1/phi1=LF8,n=4/" + tag, 4, 8, integrator="eos", phi0=1, phi1=3, n=4, tpcfg=cfg)
+            add("eos/phi0=5/phi1=LF8,n=4/" + tag, 4, 4, integrator="eos", phi0=5, phi1=3, n=4, tpcfg=cfg)
+            add("eos/phi0=7/phi1=LF8,n=4/" + tag, 4, 32 if tag == "tpB1" else 16, integrator="eos", phi0=7, phi1=3, n=4, margin=1.25, tpcfg=cfg)
+            add("whfast/modifiedkick/c0/" + tag, 2, 8, integrator="whfast", kernel=1, tpcfg=cfg)
+            add("whfast/lazy/c0/" + tag, 2, 8, integrator="whfast", kernel=3, tpcfg=cfg)
+            add("whfast/composition/c11/" + tag, 2, 8, integrator="whfast", kernel=2, corrector=11, tpcfg=cfg)
+            add("eos/phi0=8/phi1=LF8,n=4/" + tag, 6, 4, integrator="eos", phi0=8, phi1=3, n=4, tpcfg=cfg)
+            add("eos/phi0=LF8/phi1=1,n=2/" + tag, 4, 8, integrator="eos", phi0=3, phi1=1, n=2, tpcfg=cfg)
+            add("eos/phi0=LF8/phi1=7,n=2/" + tag, 4, 8, integrator="eos", phi0=3, phi1=7, n=2, tpcfg=cfg)
+            add("eos/phi0=LF8/phi1=8,n=2/" + tag, 6, 4, integrator="eos", phi0=3, phi1=8, n=2, tpcfg=cfg)
+            add("janus/4/" + tag, 4, 16, integrator="janus", order=4, tpcfg=cfg)
+            add("mercurius/" + tag, 2, 16, integrator="mercurius", tpcfg=cfg)
     add("mercurius", 2, 16, integrator="mercurius")
     add("trace", 2, 16, integrator="trace")
     return P
@@ -147,6 +189,15 @@ def adaptive_checks(seed, T):
         errs.append(err(state(sim), ref))
     ok = errs[2] <= 1e-10 and errs[1] <= max(errs[0] * 2, 1e-10) and errs[2] <= max(errs[1] * 2, 1e-11)
     out.append({"name": "ias15/epsilon 1e-3,1e-6,1e-9", "errors": errs, "ok": ok})
+    for cfg in (("B", 0), ("B", 1)):     # IAS15 / BS with test particles: compared with a 10x tighter run of the other integrator
+        simr = make_system(seed, tpcfg=cfg)
+        simr.integrator = "bs"; simr.ri_bs.eps_abs = 1e-13; simr.ri_bs.eps_rel = 1e-13; simr.dt = 0.01
+        simr.integrate(T, exact_finish_time=1)
+        sim = make_system(seed, tpcfg=cfg)
+        sim.integrator = "ias15"; sim.dt = 0.05
+        sim.integrate(T, exact_finish_time=1)
+        e = err(state(sim), state(simr))
+        out.append({"name": "ias15-vs-bs/tp%s%d" % cfg, "errors": [e], "ok": e <= 1e-9})
     for mode in (0, 1):      # adaptive_mode individual / global (documented modes 0..2+)
         sim = make_system(seed)
         sim.integrator = "ias15"; sim.ri_ias15.adaptive_mode = mode; sim.dt = 0.05
@@ -193,9 +244,10 @@ def main():
             signs = (1, -1) if (k + si) % 3 == 0 or tier != "quick" else (1,)
             for sg in signs:
                 T = sg * T0
-                key = (ss, T, pt.get("tp", False))
+                tpcfg = tuple(pt["tpcfg"]) if pt.get("tpcfg") else None
+                key = (ss, T, pt.get("tp", False), tpcfg)
                 if key not in refs:
-                    refs[key] = reference(ss, T, pt.get("tp", False), 1.0)
+                    refs[key] = reference(ss, T, pt.get("tp", False), 1.0, tpcfg)
                 es = []
                 for mult in (1, 2, 4):
                     st = run_fixed(ss, pt, T, pt["n0"] * mult)
